@@ -869,6 +869,8 @@ type qSim struct {
 	schedQ                    []qOp
 	bindQ                     []func()
 	quotaAdding               string
+	quotaDeleting             string          // name of the quota whose OnQuotaDelete is in progress
+	podEvQuotas               map[string]int  // quota label -> pod events / cycle steps of its pods in progress
 	rebuildSeq, rebuildActive int             // deliveries of tree-rebuilding quota updates: +1 at start and at end / currently in progress
 	admittedUnknown           map[string]bool // quota label -> a pod carrying it was admitted while the plugin did not know that quota
 	knownQuotas               map[string]bool // quotas whose add has been handled completely (they define the manager's resource dimensions)
@@ -955,13 +957,43 @@ func (s *qSim) aroundPodEvent(pod *corev1.Pod, fn func()) {
 		// re-check that the pod is still there
 		s.r.Tag("pod-event-during-migration")
 	}
+	lab := pod.Labels[extension.LabelQuotaName]
+	if lab != "" {
+		if lab == s.quotaDeleting {
+			s.r.Tag("pod-event-overlaps-own-quota-delete")
+		}
+		s.podEvQuotas[lab]++
+	}
 	fn()
+	if lab != "" {
+		s.podEvQuotas[lab]--
+		if lab == s.quotaDeleting {
+			s.r.Tag("pod-event-overlaps-own-quota-delete")
+		}
+	}
 	if parked && s.quotaKnown(pod) {
 		s.r.Tag("parked-pod-event")
 	}
 }
 
 func (s *qSim) deliver(ev qEvent) {
+	// history class of a recorded finding: a pod event is handled while OnQuotaDelete of the pod's own quota is in progress
+	// (the handler resolved the quota name before the delete, the delete moved the pod to the default quota, the handler
+	// then finds no such quota and drops the event)
+	var labs []string
+	if ev.typ == "pod" {
+		for _, o := range []any{ev.old, ev.new} {
+			if p, ok := o.(*corev1.Pod); ok && p != nil && p.Labels[extension.LabelQuotaName] != "" {
+				labs = append(labs, p.Labels[extension.LabelQuotaName])
+			}
+		}
+		for _, l := range labs {
+			if l == s.quotaDeleting {
+				s.r.Tag("pod-event-overlaps-own-quota-delete")
+			}
+			s.podEvQuotas[l]++
+		}
+	}
 	switch ev.typ {
 	case "quota":
 		switch ev.kind {
@@ -990,7 +1022,16 @@ func (s *qSim) deliver(ev qEvent) {
 				s.rebuildActive--
 			}
 		case "delete":
+			dn := ev.old.(*v1alpha1.ElasticQuota).Name
+			if s.podEvQuotas[dn] > 0 {
+				s.r.Tag("pod-event-overlaps-own-quota-delete")
+			}
+			s.quotaDeleting = dn
 			s.pl.OnQuotaDelete(ev.old)
+			s.quotaDeleting = ""
+			if s.podEvQuotas[dn] > 0 {
+				s.r.Tag("pod-event-overlaps-own-quota-delete")
+			}
 			delete(s.knownQuotas, ev.old.(*v1alpha1.ElasticQuota).Name)
 			if s.cfg.Guarantee && len(s.knownQuotas) == 0 && len(s.st.pods) > 0 {
 				// the last quota is gone: the manager's resource dimensions become empty while pods still hold usage
@@ -1050,6 +1091,12 @@ func (s *qSim) deliver(ev qEvent) {
 			s.pl.OnNodeDelete(ev.old)
 		}
 	}
+	for _, l := range labs { // (explicit, not deferred: deferred harness code would run while aborted actors unwind side by side)
+		s.podEvQuotas[l]--
+		if l == s.quotaDeleting {
+			s.r.Tag("pod-event-overlaps-own-quota-delete")
+		}
+	}
 	s.r.Event("deliver %s %s", ev.typ, ev.kind)
 }
 
@@ -1098,6 +1145,12 @@ func (s *qSim) cycle(op qOp, strict bool) {
 		s.busy["migrator"] = true
 		s.pl.migrateDefaultQuotaGroupsPod()
 		s.busy["migrator"] = false
+		if s.cfg.Runtime {
+			// the runtime quotas converge lazily (a refresh rescales the mins on its own path only): bring them to the value
+			// every quota would see at its next PreFilter, so that the limit the attempt meets and the limit the oracle reads
+			// afterwards are the same number
+			refreshAll(s.pl)
+		}
 		pre = s.modelVerdictInputs(pod)
 	}
 	var status *fwktype.Status
@@ -1177,7 +1230,7 @@ func (s *qSim) cycle(op qOp, strict bool) {
 }
 
 func (quotaEngine) Execute(r *sim.Run) {
-	s := &qSim{r: r, st: newQStore(), queues: map[string][]qEvent{}, busy: map[string]bool{}, delivered: map[string]*corev1.Pod{}, processed: map[string]*corev1.Pod{}, knownQuotas: map[string]bool{}, admittedUnknown: map[string]bool{}, inFlight: map[string]bool{}, foreign: map[string]bool{}, everScheduled: map[string]bool{}}
+	s := &qSim{r: r, st: newQStore(), queues: map[string][]qEvent{}, busy: map[string]bool{}, delivered: map[string]*corev1.Pod{}, processed: map[string]*corev1.Pod{}, knownQuotas: map[string]bool{}, podEvQuotas: map[string]int{}, admittedUnknown: map[string]bool{}, inFlight: map[string]bool{}, foreign: map[string]bool{}, everScheduled: map[string]bool{}}
 	r.Plan.GetCfg(&s.cfg)
 	var ops []qOp
 	r.Plan.GetOps(&ops)
